@@ -41,6 +41,7 @@ def run_simple(cfg):
         kw = {"nsteps": 3, "nwalkers": cfg["N"]}
     if sampler == "minipcn":
         kw = {"n_steps": 3, "rng": np.random.default_rng(cfg["seed"])}
+    kw.update(cfg.get("mcmc_opts") or {})  # burnin / thin / last_step_only (minipcn), discard (emcee)
     try:
         res = a.sample_posterior(n_samples=cfg["N"], sampler=sampler, **pre, **kw)
         out.result = {"final": rh.snapshot_samples(res)}
